@@ -645,7 +645,13 @@ Fixpoint vmatch (v : value) (a : aval) : Prop :=
   match v, a with
   | VLit l, ALit l' => l = l'
   | VInst c, AInst c' => c = c'
-  | VDict, ADict => True
+  | VDict vs, ADict ess =>
+      (fix go (vs : list value) (ess : list (list aval)) : Prop :=
+         match vs, ess with
+         | [], [] => True
+         | v :: vs', es :: ess' => (exists a, In a es /\ vmatch v a) /\ go vs' ess'
+         | _, _ => False
+         end) vs ess
   | VTuple vs, ATuple ess =>
       (fix go (vs : list value) (ess : list (list aval)) : Prop :=
          match vs, ess with
@@ -670,6 +676,17 @@ Proof.
     + intros H. inversion H; subst. split; [assumption|]. apply IH. assumption.
 Qed.
 
+Lemma vmatch_dict vs ess : vmatch (VDict vs) (ADict ess) <-> Forall2 vin vs ess.
+Proof.
+  revert ess; induction vs as [|v r IH]; intros [|es ess]; simpl.
+  - split; auto.
+  - split; [tauto|intros H; inversion H].
+  - split; [tauto|intros H; inversion H].
+  - split.
+    + intros [H1 H2]. constructor; [exact H1|]. apply IH. exact H2.
+    + intros H. inversion H; subst. split; [assumption|]. apply IH. assumption.
+Qed.
+
 Lemma vmatch_tag v a : vmatch v a -> atag_of a = tag_of v.
 Proof. destruct v, a; simpl; intros H; try contradiction; subst; auto. Qed.
 
@@ -679,10 +696,14 @@ Definition rex (v : value) (s : list aval) : Prop := s = [abs v].
 Record good (allow_tern : bool) (R : value -> list aval -> Prop) : Prop := {
   g_lit : forall l, R (VLit l) [ALit l];
   g_inst : forall c, R (VInst c) [AInst c];
-  g_dict : R VDict [ADict];
+  g_dict : forall vs ss, Forall2 R vs ss -> R (VDict vs) [ADict ss];
   g_tuple : forall vs ss, Forall2 R vs ss -> R (VTuple vs) [ATuple ss];
   g_index : forall vs s i v, R (VTuple vs) s -> py_index vs i = Some v ->
-            R v (flat_map (fun a => match a with ATuple ess => jedi_index ess i | _ => [] end) s);
+            R v (flat_map (fun a => match a with
+                                    | ATuple ess => jedi_index ess i
+                                    | ADict ess => concat ess
+                                    | _ => []
+                                    end) s);
   g_tern : allow_tern = true -> forall v s1 s2, R v s1 \/ R v s2 -> R v (s1 ++ s2)
 }.
 
@@ -691,7 +712,7 @@ Proof.
   split.
   - intros l. exists (ALit l). simpl; auto.
   - intros c. exists (AInst c). simpl; auto.
-  - exists ADict. simpl; auto.
+  - intros vs ss H. exists (ADict ss). split; [left; auto|]. apply vmatch_dict. exact H.
   - intros vs ss H. exists (ATuple ss). split; [left; auto|]. apply vmatch_tuple. exact H.
   - intros vs s i v [a [Ha Hm]] Hi. destruct a; simpl in Hm; try contradiction.
     apply vmatch_tuple in Hm.
@@ -716,6 +737,7 @@ Proof. induction 1; simpl; auto. unfold rex in H. subst. reflexivity. Qed.
 Lemma good_rex : good false rex.
 Proof.
   split; unfold rex; simpl; auto.
+  - intros vs ss H. rewrite (Forall2_rex_map _ _ H). reflexivity.
   - intros vs ss H. rewrite (Forall2_rex_map _ _ H). reflexivity.
   - intros vs s i v Hs Hi. subst s. simpl. rewrite app_nil_r.
     unfold jedi_index. rewrite (py_index_map (fun v => [abs v]) _ _ _ Hi). reflexivity.
@@ -882,7 +904,11 @@ Proof.
     split; simpl; auto. apply (g_tuple _ _ HR).
     apply omap_Forall2 in E. apply (Forall2_omap_map _ _ _ _ _ E).
     intros r w _ Hr. destruct (resolve_rel _ _ _ _ _ _ _ Hv Hk Hr) as [s [Hs Hr']]. rewrite Hs. exact Hr'.
-  - intros H; inversion H; subst. split; simpl; auto. apply (g_dict _ _ HR).
+  - destruct (omap (fun ka : N * aref => resolve_ref vs kvs (snd ka)) l) as [ws|] eqn:E; [|discriminate].
+    intros H; inversion H; subst.
+    split; simpl; auto. apply (g_dict _ _ HR).
+    apply omap_Forall2 in E. apply (Forall2_omap_map _ _ _ _ _ E).
+    intros ka w _ Hr. destruct (resolve_rel _ _ _ _ _ _ _ Hv Hk Hr) as [s [Hs Hr']]. rewrite Hs. exact Hr'.
   - discriminate.
 Qed.
 
